@@ -144,6 +144,59 @@ pub(crate) mod serializer;
 mod shared;
 pub mod stream;
 
+/// Verification hook (add-only, compiled only with `--cfg sozu_verif`):
+/// re-exports the crate-private H2 frame serializer and the flood detector so
+/// an out-of-tree harness can run them with plain values. No production code
+/// path uses this module.
+#[cfg(sozu_verif)]
+pub mod verif_h2 {
+    pub use super::h2::{H2FloodDetector, H2FloodViolation, H2Settings};
+    pub use super::serializer::*;
+
+    /// Counters of the detector, in declaration order.
+    pub fn flood_counters(d: &H2FloodDetector) -> [u64; 13] {
+        [
+            d.rst_stream_count as u64,
+            d.total_rst_received_lifetime,
+            d.total_abusive_rst_received_lifetime,
+            d.total_rst_streams_emitted_lifetime,
+            d.ping_count as u64,
+            d.total_ping_received_lifetime as u64,
+            d.settings_count as u64,
+            d.total_settings_received_lifetime as u64,
+            d.empty_data_count as u64,
+            d.window_update_stream0_count as u64,
+            d.continuation_count as u64,
+            d.accumulated_header_size as u64,
+            d.glitch_count as u64,
+        ]
+    }
+
+    /// Sets one counter (same indices as [`flood_counters`]).
+    pub fn flood_set_counter(d: &mut H2FloodDetector, index: usize, value: u64) {
+        match index {
+            0 => d.rst_stream_count = value as u32,
+            1 => d.total_rst_received_lifetime = value,
+            2 => d.total_abusive_rst_received_lifetime = value,
+            3 => d.total_rst_streams_emitted_lifetime = value,
+            4 => d.ping_count = value as u32,
+            5 => d.total_ping_received_lifetime = value as u32,
+            6 => d.settings_count = value as u32,
+            7 => d.total_settings_received_lifetime = value as u32,
+            8 => d.empty_data_count = value as u32,
+            9 => d.window_update_stream0_count = value as u32,
+            10 => d.continuation_count = value as u32,
+            11 => d.accumulated_header_size = value as u32,
+            _ => d.glitch_count = value as u32,
+        }
+    }
+
+    /// Makes the current rate window look `age` old.
+    pub fn flood_set_window_age(d: &mut H2FloodDetector, age: std::time::Duration) {
+        d.window_start = std::time::Instant::now() - age;
+    }
+}
+
 use crate::metrics::names;
 use crate::{
     BackendConnectionError, FrontendFromRequestError, L7ListenerHandler, L7Proxy, ListenerHandler,
